@@ -121,14 +121,28 @@ theorem matchedAt_interval (ms : List M) (a n : Nat)
     simp only [Bool.and_eq_true, decide_eq_true_eq, not_and, Nat.not_lt]
     omega
 
-/-- All matches inside `[a, a+n)`, one match exactly `[a, a+n)`: ONE result, spanning exactly `[a, a+n)`; its tag is
-that of the first regex (list order) with an exact match. -/
-theorem numExtract_single (sp : Nat → Bool) (src : Str) (ms : List M) (a n : Nat) (hn : 0 < n)
+theorem filterAmbiguity_keep (ambs : List (List (Nat × Nat))) (x : ER)
+    (h : ∀ amb ∈ ambs, filterItem amb x = true) : filterAmbiguity ambs [x] = [x] := by
+  unfold filterAmbiguity
+  induction ambs with
+  | nil => rfl
+  | cons amb rest ih =>
+    simp only [List.foldl_cons]
+    have : [x].filter (filterItem amb) = [x] := by simp [h amb (by simp)]
+    rw [this]
+    exact ih (fun b hb => h b (by simp [hb]))
+
+/-- All matches inside `[a, a+n)`, one match exactly `[a, a+n)`, no negative term ending at `a`, no ambiguity match
+meeting `[a, a+n)`: ONE result, spanning exactly `[a, a+n)`; its tag is that of the first regex (list order) with an
+exact match. -/
+theorem numExtract_single (sp : Nat → Bool) (src : Str) (ms : List M) (neg : Nat → Option (Nat × Nat))
+    (ambs : List (List (Nat × Nat))) (a n : Nat) (hn : 0 < n)
     (hN : a + n ≤ src.length) (c : Nat) (hmem : c ∈ src) (hc : sp c = false)
     (hall : ∀ m ∈ ms, a ≤ m.start ∧ m.start + m.len ≤ a + n)
-    (hone : ∃ m ∈ ms, m.start = a ∧ m.len = n) :
+    (hone : ∃ m ∈ ms, m.start = a ∧ m.len = n) (hneg : neg a = none)
+    (hamb : ∀ amb ∈ ambs, ∀ p ∈ amb, ¬ (p.1 < a + n ∧ p.2 > a)) :
     ∃ m ∈ ms, m.start = a ∧ m.len = n ∧
-      numExtract sp src ms (fun _ => none) [] = [⟨a, n, strip sp (sl src a n), m.tag⟩] := by
+      numExtract sp src ms neg ambs = [⟨a, n, strip sp (sl src a n), m.tag⟩] := by
   have hruns : runs (matchedAt ms) src.length = [(a, n)] :=
     runs_interval _ _ a n hn hN (matchedAt_interval ms a n hall hone)
   obtain ⟨m0, hm0, h1, h2⟩ := hone
@@ -142,7 +156,13 @@ theorem numExtract_single (sp : Nat → Bool) (src : Str) (ms : List M) (a n : N
   refine ⟨m, hmem', hp.1, hp.2, ?_⟩
   unfold numExtract
   simp only [strip_nonempty sp src c hmem hc, Bool.false_eq_true, ↓reduceIte, hruns, List.filterMap_cons,
-    List.filterMap_nil, srcMatch, hm, filterAmbiguity, List.foldl_nil]
+    List.filterMap_nil, srcMatch, hm, hneg]
+  apply filterAmbiguity_keep
+  intro amb hamb'
+  unfold filterItem
+  simp only [Bool.not_eq_true', List.any_eq_false, Bool.and_eq_true, decide_eq_true_eq]
+  intro p hp'
+  exact hamb amb hamb' p hp'
 
 /-! ### containment of the matches -/
 
@@ -175,5 +195,53 @@ theorem firstEnd_none_before {T : Tables} {s : Array Nat} {r : RE} (hh : headS s
     (hpre : ∀ k, k < a → k < s.size → clsTest T startItems false (code s k) = false) :
     ∀ p, p < a → firstEnd T s r p = none :=
   fun p hp => firstEnd_none_of_nil (ends_nil_of_head hh (fun hlt => hpre p hp hlt))
+
+/-! ### one literal, one result -/
+
+theorem mem_matchesOf {T : Tables} {s : Array Nat} {fam : List (Nat × RE)} {m : M} :
+    m ∈ matchesOf T s fam ↔ ∃ p ∈ fam, ∃ ab ∈ findAll T s p.2, m = ⟨ab.1, ab.2 - ab.1, p.1⟩ := by
+  unfold matchesOf
+  simp only [List.mem_flatMap, List.mem_map]
+  constructor
+  · rintro ⟨p, hp, ab, hab, rfl⟩; exact ⟨p, hp, ab, hab, rfl⟩
+  · rintro ⟨p, hp, ab, hab, rfl⟩; exact ⟨p, hp, ab, hab, rfl⟩
+
+/-- every regex of the family can only match something that starts with a sign / digit / mark and ends with a digit -/
+def FamilyOK (fam : List (Nat × RE)) : Bool := fam.all fun p => headS startItems p.2 && lastS endItems p.2
+
+/-- The generic extraction theorem: the family is `FamilyOK`, nothing before `a` can start a match, no digit from `e`
+on, and SOME regex of the family reports `[a, e)` first at `a` — then the sweep returns exactly one result, `[a, e)`. -/
+theorem extract_single {T : Tables} (sp : Nat → Bool) (src : Str) (fam : List (Nat × RE))
+    (neg : Nat → Option (Nat × Nat)) (ambs : List (List (Nat × Nat))) (hfam : FamilyOK fam = true) {a e : Nat}
+    (hae : a < e) (he : e ≤ src.length)
+    (hpre : ∀ k, k < a → k < src.toArray.size → clsTest T startItems false (code src.toArray k) = false)
+    (hpost : ∀ k, e ≤ k → k < src.toArray.size → T.digit (code src.toArray k) = false)
+    (c : Nat) (hmem : c ∈ src) (hc : sp c = false)
+    (hfirst : ∃ p ∈ fam, firstEnd T src.toArray p.2 a = some e)
+    (hneg : neg a = none) (hamb : ∀ amb ∈ ambs, ∀ p ∈ amb, ¬ (p.1 < e ∧ p.2 > a)) :
+    ∃ tag, tag ∈ fam.map (·.1) ∧
+      numExtract sp src (matchesOf T src.toArray fam) neg ambs = [⟨a, e - a, strip sp (sl src a (e - a)), tag⟩] := by
+  have hok : ∀ p ∈ fam, headS startItems p.2 = true ∧ lastS endItems p.2 = true := by
+    intro p hp
+    have := List.all_eq_true.1 hfam p hp
+    simpa using this
+  have hall : ∀ m ∈ matchesOf T src.toArray fam, a ≤ m.start ∧ m.start + m.len ≤ a + (e - a) := by
+    intro m hm
+    obtain ⟨p, hp, ab, hab, rfl⟩ := mem_matchesOf.1 hm
+    have := findAll_contained (T := T) (hok p hp).1 (hok p hp).2 hpre hpost ab hab
+    simp only
+    omega
+  have hone : ∃ m ∈ matchesOf T src.toArray fam, m.start = a ∧ m.len = e - a := by
+    obtain ⟨p, hp, hf⟩ := hfirst
+    refine ⟨⟨a, e - a, p.1⟩, mem_matchesOf.2 ⟨p, hp, (a, e), ?_, rfl⟩, rfl, rfl⟩
+    exact findAll_mem_of_first hae (firstEnd_none_before (hok p hp).1 hpre) hf (by simp; omega)
+  obtain ⟨m, hm, _, _, heq⟩ := numExtract_single sp src _ neg ambs a (e - a) (by omega) (by omega) c hmem hc hall hone
+    hneg (by
+      intro amb ha p hp
+      have : a + (e - a) = e := by omega
+      rw [this]
+      exact hamb amb ha p hp)
+  obtain ⟨p, hp, ab, _, rfl⟩ := mem_matchesOf.1 hm
+  exact ⟨p.1, List.mem_map.2 ⟨p, hp, rfl⟩, heq⟩
 
 end RTV.NumExtract
